@@ -38,7 +38,7 @@ def run(chk: lib.Check):
     fr_cases, fl_cases = [], []
     specs = corpus.model_specs(chk.tier)[: (1 if quick else 3)]
     for spec0 in specs:
-        for state in (["loaded"] if quick else ["loaded", "edited"]):
+        for state in ["loaded", "edited"]:
             model = corpus.load(spec0)
             rng = random.Random(f"{chk.seed}:{spec0['name']}:{state}")
             uuidmod.uuid4 = lambda rng=rng: uuidmod.UUID(int=rng.getrandbits(128), version=4)
@@ -46,6 +46,24 @@ def run(chk: lib.Check):
                 r = histories.HistoryRunner(model, rng)
                 for _ in range(40):
                     r.step()
+                # ... and a few deletions of subtrees whose descendants have other types than their root
+                done_del = 0
+                for _ in range(200):
+                    o_ = r.pick(lambda x: len(x._element) >= 2 and len({c.get(graph.XSI_TYPE) for c in x._element.iter() if isinstance(c.tag, str) and c.get("id")}) >= 2)
+                    if o_ is None:
+                        break
+                    cont = r.container_of(o_)
+                    if cont is None:
+                        continue
+                    try:
+                        lst_ = getattr(cont[0], cont[1])
+                        lst_.remove(o_)
+                        done_del += 1
+                    except Exception:  # noqa: BLE001
+                        pass
+                    if done_del >= 6:
+                        break
+                stats["subtree_deletions_before_queries"] += done_del
             loader = model._loader
             A = graph.Abstraction()
             # ---------------- all semantic objects and, per object, every link-storing relation evaluated once
@@ -180,7 +198,7 @@ def run(chk: lib.Check):
             rng.shuffle(anchors)
             anchors = anchors[: (4 if quick else 10)]
             xts = sorted(raw)
-            for xt in (rng.sample(xts, min(25, len(xts))) if quick else xts):
+            for xt in (xts if state == "edited" or not quick else rng.sample(xts, min(25, len(xts)))):
                 want = {id(e) for e in raw[xt]}
                 for form in ("full", "class", "short"):
                     try:
